@@ -280,7 +280,9 @@ static void cell_case(uint64_t rows, uint64_t cols, int kind, uint64_t region_ce
                         wantprev = (refbuf[bo] >> bb) & 1;
                         if (vi == 0) {
                             snprintf(api, sizeof api, "dimension.EntrySetBit");
-                            varintDimensionPairEntrySetBit(m, (size_t)r, (size_t)c, true, (varintDimensionPair)dim);
+                            /* the bit argument is a bool: every non-zero argument means "set" */
+                            static const int TRUTHY[6] = {1, 2, 4, 0x80, 0x100, -1};
+                            varintDimensionPairEntrySetBit(m, (size_t)r, (size_t)c, TRUTHY[(ci + (size_t)bgi) % 6], (varintDimensionPair)dim);
                             refbuf[bo] |= (uint8_t)(1u << bb);
                         } else if (vi == 1) {
                             snprintf(api, sizeof api, "dimension.EntrySetBit");
@@ -624,22 +626,21 @@ static void run_matrix_sequences(void) {
 }
 
 /* ---------------------------------------------------------------- far cells
- * Matrices whose cell index, bit offset or byte offset exceeds 2^31 / 2^32: lazily committed 40 GiB storage, only the
- * header page and the window around the addressed cell may be touched (mincore page-access scan), the window must
- * equal the model and the value must read back. */
+ * Matrices whose cell index, bit offset or byte offset exceeds 2^31 / 2^32: the storage is a PROT_NONE reservation of
+ * 40 GiB; only the header page and the pages of the window around the addressed cell are accessible, so any other
+ * access faults; the window must equal the model and the value must read back. */
 #define FAR_BYTES (((size_t)40 << 30) + (1 << 16))
 static void run_far_cells(void) {
     if (!vh_section_begin("far-cells")) {
         return;
     }
-    uint8_t *map = mmap(NULL, FAR_BYTES, PROT_READ | PROT_WRITE, MAP_PRIVATE | MAP_ANONYMOUS | MAP_NORESERVE, -1, 0);
+    uint8_t *map = mmap(NULL, FAR_BYTES, PROT_NONE, MAP_PRIVATE | MAP_ANONYMOUS | MAP_NORESERVE, -1, 0);
     if (map == MAP_FAILED) {
         vh_flag("far_cells_mapped", 0);
         return;
     }
     vh_flag("far_cells_mapped", 1);
-    madvise(map, FAR_BYTES, MADV_NOHUGEPAGE);
-    unsigned char *vec = malloc(FAR_BYTES / 4096);
+    mprotect(map, 4096, PROT_READ | PROT_WRITE); /* the header page */
     static const uint64_t SHAPES[4][2] = {{70000, 70000}, {3, (1ULL << 31) + 5}, {(1ULL << 32) + 3, 2}, {65537, 65536}};
     static const int KINDS[6] = {K_BIT, K_U1, K_U2, K_U4, K_U8, K_DOUBLE};
     for (int si = 0; si < 4; si++) {
@@ -674,6 +675,14 @@ static void run_far_cells(void) {
                 }
                 size_t off = (size_t)off128;
                 size_t wlo = off >= 16 ? off - 16 : 0, whi = off + (kind == K_BIT ? 1 : (size_t)ew) + 16, wl = whi - wlo;
+                size_t plo = wlo & ~(size_t)4095, phi = (whi + 4095) & ~(size_t)4095;
+                if (plo == 0) {
+                    plo = 4096;
+                }
+                if (phi > plo && mprotect(map + plo, phi - plo, PROT_READ | PROT_WRITE) != 0) {
+                    vh_flag("far_cells_mapped", 0);
+                    continue;
+                }
                 for (int bgi = 0; bgi < 2; bgi++) {
                     uint8_t model[64];
                     memset(map + wlo, bgi ? 0xff : 0x00, wl);
@@ -704,7 +713,12 @@ static void run_far_cells(void) {
                         }
                         SB_LEAVE();
                     } else {
-                        vh_fail(api, vh_fault_name(), "untagged", "%s: %s", desc, vh_fault_msg);
+                        uint8_t *fa = (uint8_t *)vh_fault_addr;
+                        if (fa >= map && fa < map + FAR_BYTES) {
+                            vh_fail(api, "other_cell_modified_or_cell_wrong", "untagged", "%s: cell lies at matrix byte %zu but matrix byte %zu was accessed", desc, off, (size_t)(fa - map));
+                        } else {
+                            vh_fail(api, vh_fault_name(), "untagged", "%s: %s", desc, vh_fault_msg);
+                        }
                     }
                     vh_count("calls", 2);
                     vh_count("cases", 1);
@@ -714,35 +728,18 @@ static void run_far_cells(void) {
                     if (memcmp(map + wlo, model, wl)) {
                         vh_fail(api, "other_cell_modified_or_cell_wrong", "untagged", "%s: the bytes at the cell's position (matrix byte %zu) differ from the model", desc, off);
                     }
-                    if (mincore(map, FAR_BYTES, vec) == 0) {
-                        size_t plo = wlo / 4096, phi = (whi - 1) / 4096, npages = FAR_BYTES / 4096;
-                        for (size_t pg = 0; pg < npages; pg++) {
-                            if (pg + 8 <= npages && ((uintptr_t)(vec + pg) & 7) == 0) {
-                                uint64_t eight;
-                                memcpy(&eight, vec + pg, 8);
-                                if ((eight & 0x0101010101010101ULL) == 0) {
-                                    pg += 7;
-                                    continue;
-                                }
-                            }
-                            if (!(vec[pg] & 1)) {
-                                continue;
-                            }
-                            if (pg != 0 && (pg < plo || pg > phi)) {
-                                vh_fail(api, "other_cell_modified_or_cell_wrong", "untagged", "%s: cell lies at matrix byte %zu but the page at matrix byte %zu was accessed", desc, off, pg * 4096);
-                            }
-                            madvise(map + pg * 4096, 4096, MADV_DONTNEED);
-                        }
-                        vh_count("page_scans", 1);
-                    }
                 }
+                if (phi > plo) {
+                    madvise(map + plo, phi - plo, MADV_DONTNEED);
+                    mprotect(map + plo, phi - plo, PROT_NONE);
+                }
+                vh_count("windows", 1);
                 char ck[64];
                 snprintf(ck, sizeof ck, "far-cells/%s/index>=2^%d", KN[kind], 63 - __builtin_clzll(idx | 1));
                 vh_class(ck, "%" PRIu64 "x%" PRIu64 " cell (%" PRIu64 ",%" PRIu64 ")", rows, cols, r, c);
             }
         }
     }
-    free(vec);
     munmap(map, FAR_BYTES);
 }
 
